@@ -1,7 +1,10 @@
 """Search support for C18 (the alphabet of the paths): random interaction trees - shared sub-trees, run-time-argument
 nodes, loads - whose store paths are taken from the given lists of names are drawn by the REAL dds._plotting.draw_graph
 (plain format, what dds.eval does for dds_export_graph); returns, per tree, the text of the file and the graph the real
-_structure gives for the same tree (nodes, styled edges), for the harness to read the file back and compare.
+_structure gives for the same tree (nodes, styled edges), for the harness to read the file back and compare.  Both are
+called the way dds.eval calls draw_graph: parameters beyond the tree, the file, the present blobs and the resolved
+references are given, by name, what the evaluation has for them; "mutated" = tables of the evaluation that the real
+draw_graph did not leave as they were.
 stdin: {"seed": int, "trees": [{"names": [path, ...], "present": bool} | {"tree": a tree as returned, "names", "present"}]}"""
 import json
 import os
@@ -16,6 +19,8 @@ def main():
     payload = json.load(sys.stdin)
     from dds.structures import FunctionInteractions, FunctionArgContext
     from dds._plotting import _structure, draw_graph
+    from drive_graphfuzz import evaluation_tables, changed_tables
+    import copy
     rng = random.Random(payload["seed"])
     tmp = tempfile.mkdtemp(prefix="c18render_")
 
@@ -55,7 +60,7 @@ def main():
         refs = {n.store_path: n.fun_return_sig for n in pool if n.store_path}
         res = {"tree": dump(root), "names": spec["names"], "present": spec.get("present", False)}
         try:
-            g = _structure(root, dict(refs))
+            g = _structure(root, dict(refs), **evaluation_tables(_structure, root, given=("fis", "indirect_refs")))
             res["nodes"] = sorted(str(n.path) for n in g.fnodes)
             res["edges"] = sorted([str(e.from_path), str(e.to_path), {1: "solid", 2: "dotted", 3: "dashed"}[int(e.edge_type)]] for e in g.deps)
         except BaseException as e:  # noqa
@@ -66,8 +71,12 @@ def main():
         try:
             # present blobs (dds_extra_debug): some of the nodes are drawn as already in the store
             present = set(n.node_hash for k, n in enumerate(g.fnodes) if k % 2 == 0) if spec.get("present") else None
-            draw_graph(root, f, present, dict(refs))
+            tables = dict(evaluation_tables(draw_graph, root, given=("fis", "out", "present_blobs", "indirect_refs")), indirect_refs=dict(refs))
+            before = copy.deepcopy(tables)
+            draw_graph(root, f, present, tables["indirect_refs"], **{k: v for k, v in tables.items() if k != "indirect_refs"})
             res["plain"] = f.read_text(encoding="utf-8")
+            if changed_tables(before, tables):
+                res["mutated"] = changed_tables(before, tables)[:6]
         except BaseException as e:  # noqa
             res["draw_error"] = type(e).__name__ + ": " + " ".join(str(e).split())[-200:]
         out.append(res)
